@@ -69,13 +69,13 @@ class C12(Check):
         assert fixable == sorted(fixlib.SINGLE_RULES), set(fixable) ^ set(fixlib.SINGLE_RULES)
 
     def pinned(self, tier):
-        return fixlib.pinned_slice(tier, ["format", "all", "layout", "core"], 6, 40)
+        return fixlib.pinned_slice(tier, ["format", "all", "layout", "core"], 8, 30)
 
     def strategy(self, tier):
         return fixlib.fix_case(tier=tier)
 
     def examples(self, tier):
-        return 55 if tier == "quick" else 2500
+        return 70 if tier == "quick" else 1500
 
     def budget_s(self, tier):
         return 400.0 if tier == "quick" else 1700.0
